@@ -523,6 +523,59 @@ func RLock(s *SyncObj)   { E.yield(&op{kind: opRLock, obj: s}) }
 func Unlock(s *SyncObj)  { o := &op{kind: opUnlock, obj: s}; E.yield(o); panicIf(o) }
 func RUnlock(s *SyncObj) { o := &op{kind: opRUnlock, obj: s}; E.yield(o); panicIf(o) }
 
+// TryLock / TryRLock: a scheduling point, then the attempt itself in the same step.
+func TryLock(s *SyncObj) bool {
+	Yield("TryLock")
+	if s.state != 0 || s.readers != 0 {
+		Absorb(hLock ^ 1)
+		return false
+	}
+	t := E.cur
+	s.state, s.holder = 1, t.id
+	t.hist = mix(mix(t.hist, hLock), s.hash)
+	t.acquire(s.vc)
+	t.acquire(s.rvc)
+	return true
+}
+
+func TryRLock(s *SyncObj) bool {
+	Yield("TryRLock")
+	if s.state != 0 {
+		Absorb(hLock ^ 1)
+		return false
+	}
+	t := E.cur
+	s.readers++
+	t.hist = mix(mix(t.hist, hLock), s.hash)
+	t.acquire(s.vc)
+	return true
+}
+
+// OnFire sets what runs in the step in which the timer fires (time.AfterFunc, tickers).
+func (t *Timer) OnFire(f func()) { t.tm.onFire = f }
+
+// Rearm arms the timer again d after its last deadline (tickers; called from OnFire).
+func (t *Timer) Rearm(d int64) {
+	t.tm.armed = true
+	t.tm.deadline += d
+}
+
+// ChanLen is len(ch) for a controlled channel of any channel type (its buffer lives in the scheduler, not in
+// the Go channel).
+func ChanLen[C any](ch C) int {
+	key := chanKey(ch)
+	if E == nil || key == nil {
+		return 0
+	}
+	Yield("len(chan)")
+	n := 0
+	if cs, ok := E.chans[key]; ok {
+		n = len(cs.buf)
+	}
+	AbsorbInt(int64(n))
+	return n
+}
+
 func WGAdd(s *SyncObj, n int) {
 	Yield("wg.Add")
 	if n < 0 {
